@@ -224,6 +224,29 @@ func (g *fnGen) program() ([]model.Node, string) {
 	for _, f := range g.fams {
 		args = append(args, g.arg(f))
 	}
+	// an argument that is itself a call of the SAME function (its result has
+	// the right family for string parameters, or int parameters of an
+	// int-returning function)
+	if np > 0 && rapid.IntRange(0, 2).Draw(t, "nested") == 0 {
+		want := famStr
+		if g.retInt {
+			want = famInt
+		}
+		var pos []int
+		for i, f := range g.fams {
+			if f == want {
+				pos = append(pos, i)
+			}
+		}
+		if len(pos) > 0 {
+			at := rapid.SampledFrom(pos).Draw(t, "nestpos")
+			var inner []model.Expr
+			for _, f := range g.fams {
+				inner = append(inner, g.arg(f))
+			}
+			args[at] = model.Call{Fn: "fun", Args: inner}
+		}
+	}
 	call := model.Call{Fn: "fun", Args: args}
 	T := func(s string) model.Node { return model.Text{S: s} }
 	prog := []model.Node{def, T("[")}
@@ -313,6 +336,14 @@ func fixed() [][]model.Node {
 	add(tri, emit(call("tri", v("b"), v("c"), v("a"))))
 	add(pair, emit(call("pair", v("b"), model.Lit{V: "lit"})))
 	add(pair, emit(call("pair", call("pair", v("b"), v("a")), v("a"))))
+	add(pair, emit(call("pair", v("a"), call("pair", v("b"), v("a"))))) // the same function called inside a LATER argument
+	add(tri, emit(call("tri", v("a"), call("tri", v("b"), v("c"), v("a")), call("tri", v("c"), v("c"), v("b")))))
+	add(let("pick", model.FnLit{Params: []string{"a", "b"}, Body: []model.Node{ret(v("a"))}}), emit(call("pick", model.Lit{V: 9}, call("pick", model.Lit{V: 2}, model.Lit{V: 3}))))
+	add(let("ack", model.FnLit{Params: []string{"m", "n"}, Body: []model.Node{
+		sif(model.Bin{Op: "==", L: v("m"), R: model.Lit{V: 0}}, ret(model.Bin{Op: "+", L: v("n"), R: model.Lit{V: 1}})),
+		sif(model.Bin{Op: "==", L: v("n"), R: model.Lit{V: 0}}, ret(call("ack", model.Bin{Op: "-", L: v("m"), R: model.Lit{V: 1}}, model.Lit{V: 1}))),
+		ret(call("ack", model.Bin{Op: "-", L: v("m"), R: model.Lit{V: 1}}, call("ack", v("m"), model.Bin{Op: "-", L: v("n"), R: model.Lit{V: 1}})))}}),
+		emit(call("ack", model.Lit{V: 2}, model.Lit{V: 2})))
 	add(one, emit(model.Bin{Op: "+", L: call("one"), R: model.Lit{V: 1}}))
 	add(one, emit(model.Bin{Op: "==", L: call("one"), R: model.Lit{V: 1}}))
 	add(one, emit(model.Bin{Op: "<", L: call("one"), R: model.Lit{V: 2}}))
@@ -340,7 +371,7 @@ func fixed() [][]model.Node {
 	return out
 }
 
-const rule = "(E) 35 fixed programs: swapped and rotated namesake arguments, nested calls, results used in + == < ! || and if tests, emission inside if/for blocks with content after it, aliasing, higher-order application, a function returning a function, recursion to depth 25, first-return-wins with dead code; each in the tag-per-statement and in the compact single-tag layout. (R) generated functions of 0-4 parameters (families int/string/bool) whose bodies are if/else-if/else decision chains over the parameters nested to depth 3, every path ending in return <unique label>, with dead code after returns and local lets; argument tuples from literals, plain variables and caller variables NAMED LIKE THE FUNCTION'S OWN PARAMETERS; 12 use sites (emit, let-then-emit, ==, if test, +, string concat, argument of a user function / Go helper, inside if / for blocks with text after, higher-order through a parameter). Oracle: reference interpreter (arguments evaluated in the caller's scope, parameters bound to argument values, fresh scope, first return reached). Non-trivial: every generated program (distinct by template text)."
+const rule = "(E) 39 fixed programs: swapped and rotated namesake arguments, nested calls, results used in + == < ! || and if tests, emission inside if/for blocks with content after it, aliasing, higher-order application, a function returning a function, recursion to depth 25, first-return-wins with dead code; each in the tag-per-statement and in the compact single-tag layout. (R) generated functions of 0-4 parameters (families int/string/bool) whose bodies are if/else-if/else decision chains over the parameters nested to depth 3, every path ending in return <unique label>, with dead code after returns and local lets; argument tuples from literals, plain variables, caller variables NAMED LIKE THE FUNCTION'S OWN PARAMETERS, and calls of the SAME function in any argument position; 12 use sites (emit, let-then-emit, ==, if test, +, string concat, argument of a user function / Go helper, inside if / for blocks with text after, higher-order through a parameter). Oracle: reference interpreter (arguments evaluated in the caller's scope, parameters bound to argument values, fresh scope, first return reached). Non-trivial: every generated program (distinct by template text)."
 
 func setup(t *testing.T) *vk.Run {
 	r := vk.Start(t, "C16", rule,
